@@ -25,7 +25,9 @@ META = {
             "sticky (thorough: all 4096) x 2 initial modes; utime: 6 (atime,mtime) pairs incl. 0, 2^31, "
             "2^32-1 and float times; chown: 5 uid/gid pairs x initial modes with and without setuid bits; "
             "combined SETSTAT/FSETSTAT requests; each by path (SFTPClient.truncate/chmod/utime/chown) "
-            "and by open handle (SFTPFile.*, file opened 'r' and 'r+').  Oracle: os.stat (mode, size, "
+            "and by open handle (SFTPFile.*, file opened 'r' and 'r+'); truncate additionally through a handle "
+            "opened 'r+' with a write buffer that holds an unflushed write of 1 or size+2 bytes at offset 0 "
+            "(twin: local file write, flush, os.truncate).  Oracle: os.stat (mode, size, "
             "uid, gid, integer times) and the file bytes equal the twin's.",
     "note": "runs as root on tmpfs (/dev/shm): chown to foreign ids works, mode bits judged via os.stat",
     "design_ref": "4/C31",
@@ -49,6 +51,10 @@ def cases(tier):
         for t in targets:
             for via in vias:
                 out.append(("size", via, {"size": s, "target": t, "mode0": 0o644}))
+            # handle state dimension: the handle carries an unflushed buffered write (w bytes at offset 0,
+            # shorter / longer than the file) when the size is changed through it
+            for w in (1, s + 2):
+                out.append(("size", "handle-buffered-write", {"size": s, "target": t, "mode0": 0o644, "pending": w}))
     if tier == "quick":
         modes = [0o600, 0o644, 0o400, 0o777, 0o7777, 0o000, 0o4755, 0o2755, 0o1777, 0o111, 0o6000]
     else:
@@ -98,8 +104,18 @@ def snapshot(path, with_times):
     return d, data
 
 
+BUFSIZE = 1 << 20   # larger than every pending write of the grid, so the write stays in the client's buffer
+
+
 def apply_twin(group, p, path):
     if group == "size":
+        if "pending" in p:
+            # the local meaning of write-then-truncate on one open file: the write lands, then os.truncate
+            with open(path, "r+b", BUFSIZE) as f:
+                f.write(content(p["pending"], 32))
+                f.flush()
+                os.truncate(path, p["target"])
+            return
         os.truncate(path, p["target"])
     elif group == "permissions":
         os.chmod(path, p["mode"])
@@ -121,7 +137,10 @@ def apply_twin(group, p, path):
 
 def apply_sftp(group, via, p, client):
     fobj = None
-    if via != "path":
+    if via == "handle-buffered-write":
+        fobj = client.open("t", "r+", BUFSIZE)
+        fobj.write(content(p["pending"], 32))
+    elif via != "path":
         fobj = client.open("t", "r+" if via == "handle-r+" else "r")
     tgt = fobj if fobj is not None else client
     args = () if fobj is not None else ("t",)
@@ -196,7 +215,7 @@ def run_case(base, idx, case, acc):
         acc.ev()
         if changes_something(group, p):
             acc.nt((group, via, repr(sorted(p.items()))))
-        viaKey = "by-path" if via == "path" else "by-handle"
+        viaKey = {"path": "by-path", "handle-buffered-write": "by-handle-after-buffered-write"}.get(via, "by-handle")
         replay = {"group": group, "via": via, "p": p}
         detail = {"case": {"group": group, "via": via, "params": p}}
         if isinstance(got_err, R.NoResponse):
@@ -248,7 +267,8 @@ def main(tier):
         raise RuntimeError("C31 needs root (chown to foreign ids); DESIGN 2.9")
     ck = core.Check(
         PID, tier, "exploration",
-        "case = (attribute group, by path | by handle opened r+ | r, parameters) from the stated grid; "
+        "case = (attribute group, by path | by handle opened r+ | r | r+ with an unflushed buffered write "
+        "(size group), parameters) from the stated grid; "
         "every case run once on fresh files; nontrivial = distinct case whose requested value differs "
         "from the file's initial value (target size != size, mode != initial mode, owner != root; "
         "times and combined requests always)",
